@@ -40,7 +40,14 @@ pub fn gen_string(rng: &mut Rng) -> String {
         1 => {
             // quote runs
             let q = if rng.coin() { '"' } else { '\'' };
-            let n = 1 + rng.below(5);
+            // now and then a run around the sizes at which a narrow counter would wrap
+            let long = rng.chance(1, 40);
+            let n = if long { *rng.pick(&[254usize, 255, 256, 257, 258, 511, 512, 513, 514]) } else { 1 + rng.below(5) };
+            if long && rng.coin() {
+                // the other quote and a backslash as well: no style gets by without counting
+                s.push(if q == '"' { '\'' } else { '"' });
+                s.push('\\');
+            }
             if rng.coin() {
                 s.push('x');
             }
